@@ -23,7 +23,9 @@ func ParseIPAddr(s string) (IPAddr, error) {
 		return IPAddr{}, fmt.Errorf("%w: cannot parse IPv4 addresses embedded in IPv6 addresses", errIP)
 	} else if net, err := netip.ParsePrefix(s); err == nil {
 		return IPAddr(net), nil
-	} else if addr, err := netip.ParseAddr(s); err == nil {
+	} else if addr, err := netip.ParseAddr(s); err == nil && addr.Zone() == "" {
+		// Cedar has no zoned addresses; netip.PrefixFrom would silently drop the zone (and "fe80::1%eth0/64" would
+		// parse as the single address fe80::1 with zone "eth0/64").
 		return IPAddr(netip.PrefixFrom(addr, addr.BitLen())), nil
 	}
 	return IPAddr{}, fmt.Errorf("%w: error parsing IP address %s", errIP, s)
